@@ -338,10 +338,10 @@ func (s *Sim) doNFTSend(op Op, c *world.Chain, owner *world.Account, class, id s
 		id = "nosuchid"
 		note = "unknown-id"
 	case 4:
-		dst = "chain-nowhere"
+		dst = unknownChain(dst, "chain-nowhere", int(op.U>>6))
 		note = "unknown-dest"
 	case 5:
-		relay = "chain-norelay"
+		relay = unknownChain(dst, "chain-norelay", int(op.U>>6))
 		note = "unknown-relay"
 	case 6:
 		dst = c.Name
@@ -522,10 +522,10 @@ func (s *Sim) doMTSend(op Op, c *world.Chain, owner *world.Account, class, id st
 		id = "nosuchid"
 		note = "unknown-id"
 	case 4:
-		dst = "chain-nowhere"
+		dst = unknownChain(dst, "chain-nowhere", int(op.U>>6))
 		note = "unknown-dest"
 	case 5:
-		relay = "chain-norelay"
+		relay = unknownChain(dst, "chain-norelay", int(op.U>>6))
 		note = "unknown-relay"
 	case 6:
 		dst = c.Name
